@@ -25,6 +25,7 @@ def parse_clafer(text):
     order = []
     stack = []
     uses = []
+    use_values = []
     while i < len(lines) and lines[i].strip() and not lines[i].startswith('['):
         ln = lines[i]
         depth = len(ln) - len(ln.lstrip('\t'))
@@ -35,6 +36,7 @@ def parse_clafer(text):
             if not m:
                 raise ValueError(f'attribute use not understood: {body!r}')
             uses.append(m.group(1))
+            use_values.append((stack[-1][1] if stack else None, m.group(1), m.group(2)))
             continue
         m = re.match(rf'^(abstract\s+)?(?:(xor|or|mux|\d+\.\.\d+)\s+)?({IDENT})(\s*:\s*\w+)?(\s*\?)?$', body)
         if not m:
@@ -57,6 +59,7 @@ def parse_clafer(text):
         elif ln:
             m = re.match(rf'^(\w+) : ({IDENT})$', ln)
             inst = m.group(2) if m else None
+    parse_clafer.last_use_values = use_values
     return decl, feats, order, uses, cons, inst
 
 
@@ -246,6 +249,26 @@ def main():
                  f'{len(got)} instances, {len(exp)} valid configurations; e.g. {sorted(map(sorted, got ^ exp))[:2]}', d, known=kn)
         run.case('Clafer: attributes are declared with the identifier they are used with', key,
                  all(u in decl for u in uses), f'used {sorted(set(uses))} declared {sorted(decl)}', d, known=kn)
+        # every attribute use carries a literal of the declared type that denotes the value of the model
+        exp_vals = {}
+        for f, _, _ in d_features(d):
+            for a in f.get('attrs', []):
+                exp_vals[(f['name'], a['name'])] = a['value']
+        ok, why = True, ''
+        for owner, an, lit in getattr(parse_clafer, 'last_use_values', []):
+            v = exp_vals.get((owner.strip('"') if owner else owner, an.strip('"')))
+            if isinstance(v, bool):
+                good = lit.strip().lower() in (('true', '1') if v else ('false', '0'))
+            elif isinstance(v, (int, float)):
+                try:
+                    good = float(lit) == float(v)
+                except ValueError:
+                    good = False
+            else:
+                good = lit.strip().strip('"') == str(v) and lit.strip() != ''
+            if not good:
+                ok, why = False, f'attribute {an} of {owner}: literal {lit!r} for the value {v!r}'
+        run.case('Clafer: attribute uses carry the value of the model', key, ok, why, d, known=kn)
         run.case('Clafer: the instance refers to the root declaration', key, inst == order[0], f'{inst} vs {order[0]}', d, known=kn)
     run.finish('random models of the Clafer fragment (solitary children or one xor / or / mux / a..b group per feature, attributes of '
                'bool / int / float / str values), 0-2 logical constraints over all eight operators; every third model with names that need '
